@@ -34,7 +34,8 @@ fn c17_k3_eager_tick() {
     core::mem::forget(l);
 }
 
-// @harness name=c05_k3_tick_waiting prop=C05 tier=thorough timeout=5400
+// @harness name=c05_k3_tick_waiting prop=PARKED tier=thorough timeout=5400
+// @note did not finish within 90 min (tick() with a symbolic waiting state and queue); kept for the record
 // @encodes Layout::tick (a tap-hold decision is pending: queued events are aged, not dequeued), WaitingState::tick_wt, waiting_into_tap / _timeout, do_action (KeyCode arm)
 // @inst Layout<3, 2, u8>
 // @bounds a pending tap-hold (Default variant) for key (0,0) with constant tap = a, hold = lsft, timeout-action = lctl and symbolic remaining timeout / delay / ticks; the queue holds one press of another key with symbolic age, optionally followed by the tap-hold key's own release (symbolic)
@@ -87,7 +88,8 @@ fn c05_k3_tick_waiting() {
     core::mem::forget(l);
 }
 
-// @harness name=c06_k7_tick_expiry prop=C06,C01 tier=thorough timeout=5400
+// @harness name=c06_k7_tick_expiry prop=PARKED tier=thorough timeout=5400
+// @note did not finish within 30 min (tick() -> dequeue(Release) with symbolic one-shot scalars); kept for the record
 // @encodes Layout::tick (one-shot expiry: OneShotState::tick_osh -> dequeue(Release) for every deferred release)
 // @inst Layout<3, 2, u8>
 // @bounds one active one-shot key (0,1) whose physical release was deferred, its key state LShift in place, another plain key held; symbolic remaining timeout, end config and release-on-next-tick flag
